@@ -129,7 +129,7 @@ def run(ctx):
     ctx.rule = ("2-4 submitter processes of one task (fast / slow body, debug or cf worker) into a shared cache root, with or without "
                 "an existing result, seeded per-process delay injection at every traced statement; non-trivial = >=2 submitters and "
                 ">=1 cross-process switch observed between checkpoints; distinct = distinct case spec (interleavings reported separately)")
-    ctx.record_all(ctx.pmap("vp.props.c10:case_one", cases, nproc=4, timeout=1500 if quick else 3400))
+    ctx.record_all(ctx.pmap("vp.props.c10:case_one", cases, nproc=6, timeout=1500 if quick else 3400))
     ctx.assumptions = ["interleavings inside one statement (e.g. inside pickle.dump) are left to the OS scheduler; delays are injected "
                        "only at statement boundaries of the traced functions"]
 
